@@ -22,6 +22,8 @@ pub struct GenParams {
     pub hooks: bool,
     /// restrict option sets: "" | try | int | limit | eager | conflict | stream
     pub focus: String,
+    /// impl_* families: index into call_cfgs(true) / stream_cfgs()
+    pub cfg_index: i64,
 }
 
 fn focus_ok(c: &RunCfg, focus: &str) -> bool {
@@ -247,6 +249,13 @@ fn random_access(rng: &mut Rng, n: usize, types: usize, pct_none: u64) -> (Vec<V
                 writes[f].push(t);
             }
         }
+        // declaration order is the caller's business: shuffle it
+        for v in [&mut reads[f], &mut writes[f]] {
+            for a in (1..v.len()).rev() {
+                let b = rng.below(a + 1);
+                v.swap(a, b);
+            }
+        }
     }
     (reads, writes)
 }
@@ -454,9 +463,15 @@ pub fn generate(p: &GenParams, out: &mut Out) {
                             if !sel.take() {
                                 continue;
                             }
-                            let (reads, writes) = access_of(n, types, code);
-                            let mut s = base_scn(format!("b{n}-{gi}-{ki}-{code}"), n, calls_of(e, km), reads, writes);
+                            let (mut reads, mut writes) = access_of(n, types, code);
                             let h = mix(code, gi as u64 * 31 + ki as u64);
+                            // declaration order within a function: ascending or descending type index
+                            if h % 2 == 1 {
+                                for v in reads.iter_mut().chain(writes.iter_mut()) {
+                                    v.reverse();
+                                }
+                            }
+                            let mut s = base_scn(format!("b{n}-{gi}-{ki}-{code}"), n, calls_of(e, km), reads, writes);
                             s.phases.push(Phase::Seq { fail_at: (h % (n as u64 + 2)) as usize });
                             s.phases.push(Phase::GraphInfo);
                             if h % 7 == 0 {
@@ -600,7 +615,7 @@ pub fn generate(p: &GenParams, out: &mut Out) {
                         continue;
                     }
                     let s = base_scn(format!("k{n}-{variant}-{idx}"), n, calls_of(&e, 0), vec![], vec![]);
-                    let r = run_scenario(&s, false, &ExploreOpts::default());
+                    let r = run_scenario(&s, p.hooks, &ExploreOpts::default());
                     // stop growing once the bound is exceeded: the next size would take twice as long
                     if let Some(b) = r.trace.iter().find(|v| v["ev"] == "build") {
                         if b["rank_pops"].as_i64().unwrap_or(0) > (n * n + n) as i64 {
@@ -610,13 +625,23 @@ pub fn generate(p: &GenParams, out: &mut Out) {
                     emit(&s, &r.trace);
                 }
             }
-            // layered: w nodes per layer, d layers, complete bipartite between consecutive layers
-            'outer: for d in 2..=(if thorough { 6 } else { 5 }) {
+            // layered: w nodes per layer, d layers, complete bipartite between consecutive layers;
+            // deep and narrow ones have exponentially many equal-length paths
+            let mut layered: Vec<(usize, usize)> = Vec::new();
+            for d in 2..=(if thorough { 16 } else { 12 }) {
                 for wd in 2..=4usize {
-                    if over {
-                        break 'outer;
+                    if wd * d <= (if thorough { 48 } else { 36 }) {
+                        layered.push((wd, d));
                     }
-                    let n = wd * d;
+                }
+            }
+            layered.sort_by_key(|&(wd, d)| wd * d);
+            for (wd, d) in layered {
+                if over {
+                    break;
+                }
+                let n = wd * d;
+                for variant in 0..2 {
                     let mut e = Vec::new();
                     for l in 0..(d - 1) {
                         for a in 0..wd {
@@ -625,12 +650,85 @@ pub fn generate(p: &GenParams, out: &mut Out) {
                             }
                         }
                     }
+                    if variant == 1 {
+                        e.reverse();
+                    }
                     idx += 1;
                     if !sel.take() {
                         continue;
                     }
-                    let s = base_scn(format!("lay{wd}x{d}-{idx}"), n, calls_of(&e, 0), vec![], vec![]);
-                    let r = run_scenario(&s, false, &ExploreOpts::default());
+                    let s = base_scn(format!("lay{wd}x{d}-{variant}-{idx}"), n, calls_of(&e, if variant == 1 { u64::MAX } else { 0 }), vec![], vec![]);
+                    let r = run_scenario(&s, p.hooks, &ExploreOpts::default());
+                    if let Some(b) = r.trace.iter().find(|v| v["ev"] == "build") {
+                        if b["rank_pops"].as_i64().unwrap_or(0) > (n * n + n) as i64 {
+                            over = true;
+                        }
+                    }
+                    emit(&s, &r.trace);
+                }
+            }
+            // chains of diamonds: a -> {b, c} -> d -> {e, f} -> g ...
+            for k in 1..=(if thorough { 14 } else { 10 }) {
+                if over {
+                    break;
+                }
+                let n = 3 * k + 1;
+                let mut e = Vec::new();
+                for q in 0..k {
+                    let a = 3 * q + 1;
+                    e.push((a, a + 1));
+                    e.push((a, a + 2));
+                    e.push((a + 1, a + 3));
+                    e.push((a + 2, a + 3));
+                }
+                idx += 1;
+                if !sel.take() {
+                    continue;
+                }
+                let s = base_scn(format!("dia{k}-{idx}"), n, calls_of(&e, 0), vec![], vec![]);
+                let r = run_scenario(&s, p.hooks, &ExploreOpts::default());
+                if let Some(b) = r.trace.iter().find(|v| v["ev"] == "build") {
+                    if b["rank_pops"].as_i64().unwrap_or(0) > (n * n + n) as i64 {
+                        over = true;
+                    }
+                }
+                emit(&s, &r.trace);
+            }
+            // random layered graphs (each node wired to a random subset of the next layer), shuffled ids
+            {
+                let mut rng = Rng::new(p.seed ^ 0x1A7E4);
+                for i in 0..(if thorough { 60 } else { 20 }) {
+                    if over {
+                        break;
+                    }
+                    let wd = 2 + rng.below(3);
+                    let d = 4 + rng.below(if thorough { 10 } else { 7 });
+                    let n = wd * d;
+                    let mut perm: Vec<usize> = (1..=n).collect();
+                    for a in (1..n).rev() {
+                        let b = rng.below(a + 1);
+                        perm.swap(a, b);
+                    }
+                    let mut e = Vec::new();
+                    for l in 0..(d - 1) {
+                        for a in 0..wd {
+                            for b in 0..wd {
+                                if rng.chance(3, 4) {
+                                    e.push((perm[l * wd + a], perm[(l + 1) * wd + b]));
+                                }
+                            }
+                        }
+                    }
+                    for a in (1..e.len()).rev() {
+                        let b = rng.below(a + 1);
+                        e.swap(a, b);
+                    }
+                    idx += 1;
+                    if !sel.take() {
+                        continue;
+                    }
+                    let s = base_scn(format!("rlay-{i}-{idx}"), n, calls_of(&e, rng.next()), vec![], vec![]);
+                    let r = run_scenario(&s, p.hooks, &ExploreOpts::default());
                     if let Some(b) = r.trace.iter().find(|v| v["ev"] == "build") {
                         if b["rank_pops"].as_i64().unwrap_or(0) > (n * n + n) as i64 {
                             over = true;
@@ -653,7 +751,7 @@ pub fn generate(p: &GenParams, out: &mut Out) {
                     continue;
                 }
                 let s = base_scn(format!("dr-{i}"), n, calls_of(&e, rng.next()), vec![], vec![]);
-                let r = run_scenario(&s, false, &ExploreOpts::default());
+                let r = run_scenario(&s, p.hooks, &ExploreOpts::default());
                 emit(&s, &r.trace);
             }
         }
@@ -834,6 +932,57 @@ pub fn generate(p: &GenParams, out: &mut Out) {
                 s.phases.push(runs_phase(vec![c]));
                 let mut r2 = Rng::new(sub);
                 let (mut scn, mut trace) = random_walk(&s, &x, p.hooks, 8 * n + 12, &mut r2);
+                scn.id = s.id.clone();
+                if let Some(f) = trace.first_mut() {
+                    f["scn"] = Value::String(scn.id.clone());
+                }
+                emit(&scn, &trace);
+            }
+        }
+        // Hook-level conformance: every schedule of ONE option set on every small graph (hooks on).
+        "impl_runs" | "impl_streams" => {
+            let streams = p.family == "impl_streams";
+            let cfgs = if streams { stream_cfgs() } else { call_cfgs(true) };
+            let c = cfgs.get(p.cfg_index.max(0) as usize).cloned().unwrap_or_else(|| {
+                eprintln!("harness: cfg-index out of range");
+                std::process::exit(2);
+            });
+            let max_n = if p.max_n > 0 { p.max_n } else { 3 };
+            for n in 0..=max_n {
+                let acc_codes: Vec<u64> = if n == 0 { vec![0] } else if n <= 2 { (0..3u64.pow(n as u32)).collect() } else { vec![0, 8, 5, 26, 17] };
+                for (gi, e) in fwd_dags(n).iter().enumerate() {
+                    for &code in &acc_codes {
+                        if !sel.take() {
+                            continue;
+                        }
+                        let (reads, writes) = access_of(n, 1, code);
+                        let mut s = base_scn(format!("i{n}-{gi}-{code}"), n, calls_of(e, gi as u64), reads, writes);
+                        s.phases.push(runs_phase(vec![c.clone()]));
+                        let x = if streams {
+                            ExploreOpts { drop_stream: n <= 2, ..Default::default() }
+                        } else {
+                            xopts_for(&c, 2)
+                        };
+                        exhaustive(&s, &x, true, 64, 4000, &mut emit);
+                    }
+                }
+            }
+            // a few random larger ones
+            let mut rng = Rng::new(p.seed ^ 0x1A91 ^ (p.cfg_index as u64));
+            for i in 0..(if thorough { 200 } else { 40 }) {
+                let n = 4 + rng.below(5);
+                let dens = *rng.pick(&[15u64, 30, 50]);
+                let e = random_dag(&mut rng, n, dens, false);
+                let (reads, writes) = random_access(&mut rng, n, 2, 70);
+                let sub = rng.next();
+                if !sel.take() {
+                    continue;
+                }
+                let mut s = base_scn(format!("ir-{i}"), n, calls_of(&e, rng.next()), reads, writes);
+                s.phases.push(runs_phase(vec![c.clone()]));
+                let x = if streams { ExploreOpts { drop_stream: false, ..Default::default() } } else { xopts_for(&c, 2) };
+                let mut r2 = Rng::new(sub);
+                let (mut scn, mut trace) = random_walk(&s, &x, true, 8 * n + 12, &mut r2);
                 scn.id = s.id.clone();
                 if let Some(f) = trace.first_mut() {
                     f["scn"] = Value::String(scn.id.clone());
